@@ -156,6 +156,7 @@ def run(ctx):
         r4.fail(f3.qualname, "elastic-path", f3.file, f3.lineno, "__Integrate_3d", "no early elastic return for a material without internal variables")
     condensation_rule(ctx, beh)
     evaluation_point_rule(ctx, beh)
+    derivative_rules(ctx)
 
 
 def condensation_rule(ctx, beh):
@@ -270,3 +271,185 @@ def evaluation_point_rule(ctx, beh):
             r.ok("R (residual) and dR (Jacobian) are evaluated at the same state value")
         else:
             r.fail(fj.qualname, "point:R-vs-dR", fj.file, fj.lineno, "__Jacobian", f"the residual evaluates the hardening force at `{a[:80]}` but the Jacobian differentiates it at `{b[:80]}`: the local Newton matrix is not the derivative of the residual")
+
+
+# ---------------------------------------------------------------------------
+# R19.7 / R19.8: derivative consistency of the constitutive pieces and of the scalar return, decided symbolically
+# ---------------------------------------------------------------------------
+
+
+def _callable(I, c):
+    from ..repo import FuncInfo
+
+    return (lambda *a: I.call_function(c, list(a))) if isinstance(c, FuncInfo) else c
+
+
+def derivative_rules(ctx):
+    """R19.7: every hand-written derivative the local solvers rely on is the derivative of the function it is paired
+    with: hardening (psi -> R -> dR), rate laws (inverse o rate = id, dinverse = inverse'), back-stress
+    (X = dpsi/dalpha, modulus = dX/dalpha), yield surfaces (N = df/dsigma, dNdSig = dN/dsigma, df/dR = -1).
+    R19.8: the scalar return: dphi = dphi/dtheta, the Newton slope is dr/dtheta, the algorithmic tangent is the exact
+    linearisation of the returned stress (implicit-function theorem on the consistency condition)."""
+    from types import SimpleNamespace
+
+    from ..femchain import XFe
+    from ..symx import SE, fn, full_hook, run_jobs
+    from ..xarray import XArray
+    from ..xeval import Interp
+
+    repo = ctx.repo
+    r7 = ctx.rule("R19.7", "constitutive derivative pairs (for all parameter values, on the open region where the guards hold): R = dpsi/dp, dR = R', inverse(rate(f)) = f, dinverse = inverse', X = dpsi/dalpha, modulus = dX/dalpha, N = df/dsigma, dNdSig = dN/dsigma, df/dR = -1", min_instances=40)
+    r8 = ctx.rule("R19.8", "scalar spectral return: dphi is dphi/dtheta, the Newton slope is d(residual)/dtheta for any hardening and rate law, and Tangent is the exact linearisation of the returned stress (implicit-function theorem)", min_instances=4)
+    jobs, where = [], {}
+    pkg = "EasyFEA.Models.InElastic"
+
+    def new_interp():
+        I = Interp(repo, max_steps=5_000_000)
+        I.call_hook = full_hook
+        return I
+
+    def add(rule, jid, f, **job):
+        jobs.append(dict(id=jid, **job))
+        where[jid] = (rule, f)
+        rule.instance(fn=f.qualname)
+
+    # ---- isotropic hardening
+    mod = repo.module(f"{pkg}.IsotropicHardening")
+    p = SE.sym("p")
+    nfac = 0
+    for name, f in sorted(mod.functions.items()):
+        if not any(isinstance(n, ast.Call) and (dotted(n.func) or "").endswith("IsotropicHardening") for n in ast.walk(f.node)):
+            continue
+        I = new_interp()
+        t = I.call_function(f, [SE.sym(q) for q in f.params()])
+        psi, R, dR = (_callable(I, t.psi)(p), _callable(I, t.R)(p), _callable(I, t.dR)(p))
+        add(r7, f"{name}: R = dpsi/dp", f, lhs=SE.of(psi).s, rhs=SE.of(R).s, diff=["p"])
+        add(r7, f"{name}: dR = dR/dp", f, lhs=SE.of(R).s, rhs=SE.of(dR).s, diff=["p"])
+        nfac += 1
+    if nfac < 3:
+        raise AnalysisError("fewer than 3 isotropic hardening laws found")
+    # ---- rate laws
+    mod = repo.module(f"{pkg}.ViscoPlastic")
+    x = SE.sym("x")
+    for name, f in sorted(mod.functions.items()):
+        if not any(isinstance(n, ast.Call) and (dotted(n.func) or "").endswith("RateLaw") for n in ast.walk(f.node)):
+            continue
+        I = new_interp()
+        t = I.call_function(f, [SE.sym(q) for q in f.params()])
+        rate, inv, dinv = _callable(I, t.rate), _callable(I, t.inverse), _callable(I, t.dinverse)
+        add(r7, f"{name}: inverse(rate(f)) = f", f, lhs=SE.of(inv(rate(x))).s, rhs="x")
+        add(r7, f"{name}: dinverse = inverse'", f, lhs=SE.of(inv(x)).s, rhs=SE.of(dinv(x)).s, diff=["x"])
+    # ---- kinematic hardening
+    mod = repo.module(f"{pkg}.KinematicHardening")
+    al = XFe((1, 1, 6), [SE.sym(f"a{i}") for i in range(6)])
+    for name, f in sorted(mod.functions.items()):
+        if not any(isinstance(n, ast.Call) and (dotted(n.func) or "") == "KinematicHardening" for n in ast.walk(f.node)):
+            continue
+        I = new_interp()
+        t = I.call_function(f, [SE.sym(q) for q in f.params()])
+        psi = XArray.from_nested(_callable(I, t.psi)(al)).data[0]
+        X = XArray.from_nested(_callable(I, t.X)(al))
+        for i in range(6):
+            add(r7, f"{name}: X[{i}] = dpsi/dalpha[{i}]", f, lhs=SE.of(psi).s, rhs=SE.of(X.data[i]).s, diff=[f"a{i}"])
+        for i, j in ((0, 0), (3, 3), (0, 1), (2, 5)):
+            add(r7, f"{name}: modulus = dX[{i}]/dalpha[{j}]", f, lhs=SE.of(X.data[i]).s, rhs=SE.of(t.modulus).s if i == j else "0", diff=[f"a{j}"])
+    # ---- yield surfaces
+    mod = repo.module(f"{pkg}.Yield")
+    sig = XFe((1, 1, 6), [SE.sym(f"s{i}") for i in range(6)])
+    Rr = XFe((1, 1), [SE.sym("R")])
+    nsurf = 0
+    for name, f in sorted(mod.functions.items()):
+        if not any(isinstance(n, ast.Return) and isinstance(n.value, ast.Call) and (dotted(n.value.func) or "") == "YieldSurface" for n in ast.walk(f.node)):
+            continue
+        I = new_interp()
+        t = I.call_function(f, [SE.sym(q) for q in f.params()])
+        fv = XArray.from_nested(_callable(I, t.f)(sig, Rr))
+        Nv = XArray.from_nested(_callable(I, t.N)(sig, Rr))
+        dNv = XArray.from_nested(_callable(I, t.dNdSig)(sig))
+        if fv.size != 1 or Nv.shape[-1] != 6 or dNv.shape[-2:] != (6, 6):
+            r7.instance(fn=f.qualname)
+            r7.fail(f.qualname, f"shapes:{name}", f.file, f.lineno, name, f"{name}: f, N, dNdSig have shapes {fv.shape}, {Nv.shape}, {dNv.shape}")
+            continue
+        for i in range(6):
+            add(r7, f"{name}: N[{i}] = df/dsigma[{i}]", f, lhs=fv.data[0].s, rhs=SE.of(Nv.data[i]).s, diff=[f"s{i}"])
+        pairs = [(i, j) for i in range(6) for j in range(6)] if ctx.tier == "thorough" else [(0, 0), (0, 1), (1, 2), (2, 2), (3, 3), (0, 3), (5, 5), (4, 5), (5, 1)]
+        for i, j in pairs:
+            add(r7, f"{name}: dNdSig[{i},{j}] = dN[{i}]/dsigma[{j}]", f, lhs=SE.of(Nv.data[i]).s, rhs=SE.of(dNv.data[i * 6 + j]).s, diff=[f"s{j}"])
+        add(r7, f"{name}: df/dR = -1", f, lhs=fv.data[0].s, rhs="-1", diff=["R"])
+        nsurf += 1
+    if nsurf < 3:
+        raise AnalysisError("fewer than 3 yield surfaces found")
+    # ---- scalar return
+    mod = repo.module(f"{pkg}._spectral")
+    fphi, fsolve, ftan = mod.functions["_Phi"], mod.functions["Solve"], mod.functions["Tangent"]
+    n = 2
+    I = new_interp()
+    y3 = XFe((1, 1, 3), [SE.sym(f"y{i}") for i in range(3)])
+    lam3 = XArray((3,), [SE.sym(f"l{i}") for i in range(3)])
+    th = XFe((1, 1), [SE.sym("th")])
+    phi, dphi = I.call_function(fphi, [y3, lam3, th])
+    add(r8, "_Phi: dphi = dphi/dtheta", fphi, lhs=SE.of(phi.data[0]).s, rhs=SE.of(dphi.data[0]).s, diff=["th"])
+    loops = [s for s in fsolve.node.body if isinstance(s, ast.For)]
+    if len(loops) != 1:
+        raise AnalysisError("_spectral.Solve: expected one Newton loop")
+    loop = loops[0]
+    li = fsolve.node.body.index(loop)
+    body = []
+    for st in loop.body:
+        if isinstance(st, ast.If) and any(isinstance(b, ast.Break) for b in ast.walk(st)):
+            break
+        body.append(st)
+    # the Newton step divides the residual by its slope: find the two names by that provenance
+    step = [b for st in loop.body for c in ast.walk(st) if isinstance(c, ast.Call) and (dotted(c.func) or "") == "np.where" for b in c.args if isinstance(b, ast.BinOp) and isinstance(b.op, ast.Div) and isinstance(b.left, ast.Name) and isinstance(b.right, ast.Name)]
+    if not step:
+        raise AnalysisError("_spectral.Solve: Newton step residual / slope not found")
+    rname, drname = step[0].left.id, step[0].right.id
+    params = fsolve.params()
+    theta_name = None
+    for st in fsolve.node.body[:li]:
+        if isinstance(st, ast.Assign) and isinstance(st.targets[0], ast.Name) and "FeArray.zeros" in norm_text(st.value):
+            theta_name = st.targets[0].id
+            break
+    if theta_name is None:
+        raise AnalysisError("_spectral.Solve: initialisation of the scalar unknown not found")
+    pre = [s for s in fsolve.node.body[:li] if not (isinstance(s, ast.Expr) and isinstance(s.value, ast.Constant)) and not (isinstance(s, ast.Assign) and isinstance(s.targets[0], ast.Name) and s.targets[0].id == theta_name)]
+    post = fsolve.node.body[li + 1:]
+    if not isinstance(post[-1], ast.Return):
+        raise AnalysisError("_spectral.Solve: trailing return not found")
+    T = XArray((n, n), [SE.sym(f"t{i}{j}") for i in range(n) for j in range(n)])
+    Ti = XArray((n, n), [SE.sym(f"u{i}{j}") for i in range(n) for j in range(n)])
+    lam = XArray((n,), [SE.sym(f"l{i}") for i in range(n)])
+    eigen = SimpleNamespace(T=T, Ti=Ti, lam=lam, Cinv=None)
+    sg = XFe((1, 1, n), [SE.sym(f"s{i}") for i in range(n)])
+    C = XFe((1, 1, n, n), [SE.sym(f"c{min(i, j)}{max(i, j)}") for i in range(n) for j in range(n)])
+    hard = SimpleNamespace(R=lambda q: XFe((1, 1), [fn("R", XArray.from_nested(q).data[0])]), dR=lambda q: XFe((1, 1), [fn("dR", XArray.from_nested(q).data[0])]))
+    rate = SimpleNamespace(inverse=lambda g: XFe((1, 1), [fn("inv", XArray.from_nested(g).data[0])]), dinverse=lambda g: XFe((1, 1), [fn("dinv", XArray.from_nested(g).data[0])]))
+    pairs_f = {"R": "dR", "inv": "dinv"}
+    for tag, rt in (("rate-independent", None), ("rate-dependent", rate)):
+        env = {q: None for q in params}
+        env.update(eigen=eigen, sigTr_e_pg=sg, pOld_e_pg=XFe((1, 1), [SE.sym("p0")]), hardening=hard, sigma_y=SE.sym("sy"), rate=rt, dt=SE.sym("dt"))
+        env[theta_name] = th
+        rv, drv = I.run_statements(pre + body, dict(env), mod, [rname, drname])
+        add(r8, f"Solve ({tag}): Newton slope = d(residual)/dtheta", fsolve, lhs=SE.of(rv.data[0]).s, rhs=SE.of(drv.data[0]).s, diff=["th"], pairs=pairs_f)
+        if rt is None:
+            continue
+        ret = ast.Assign(targets=[ast.Name(id="__ret", ctx=ast.Store())], value=post[-1].value)
+        (res,) = I.run_statements(pre + body + post[:-1] + [ret], dict(env), mod, ["__ret"])
+        Calg = XArray.from_nested(I.call_function(ftan, [eigen, res, C]))
+        if Calg.shape != (1, 1, n, n):
+            r8.instance(fn=ftan.qualname)
+            r8.fail(ftan.qualname, "shape", ftan.file, ftan.lineno, "Tangent", f"the tangent has shape {Calg.shape}")
+            continue
+        sv = XArray.from_nested(res.sig)
+        r_expr = f"(({SE.of(res.phi.data[0]).s}) - sy - R(p0 + ({SE.of(res.dGamma.data[0]).s})) - inv(({SE.of(res.dGamma.data[0]).s})/dt))"
+        for i in range(n):
+            for j in range(n):
+                terms = [f"(D({sv.data[i].s}, s{k}) + D({sv.data[i].s}, th) * (-(D({r_expr}, s{k})) / (D({r_expr}, th)))) * c{min(k, j)}{max(k, j)}" for k in range(n)]
+                add(r8, f"Tangent[{i},{j}] = dsigma[{i}]/deps[{j}]", ftan, lhs=SE.of(Calg.data[i * n + j]).s, rhs=" + ".join(terms), pairs=pairs_f, numeric=(ctx.tier != "thorough"))
+    out = run_jobs(jobs, seed=ctx.seed, points=40 if ctx.tier == "thorough" else 12)
+    for jid, (rule, f) in where.items():
+        o = out[jid]
+        if o["ok"]:
+            rule.ok(f"{jid}  [{o['method']}]")
+        else:
+            rule.fail(f.qualname, jid, f.file, f.lineno, f.name, f"{jid} does NOT hold ({o['method']}; witness {o['witness']}): the hand-written derivative is not the derivative of its primitive, so the local Newton matrix / the algorithmic tangent is inconsistent with the residual / the returned stress")
